@@ -672,6 +672,20 @@ func (n *RemoteNode) NewSess(rSeid uint64) *Sess {
 	return s
 }
 
+// MoveSess hands a session of n over to the remote node to: from now on it
+// is one of to's sessions (reports go to to, to's re-association removes it).
+func (n *RemoteNode) MoveSess(s *Sess, to *RemoteNode) {
+	delete(n.sess, s.LocalID)
+	to.sess[s.LocalID] = struct{}{}
+	s.rnode = to
+	s.log = to.log.WithFields(
+		logrus.Fields{
+			logger_util.FieldUserPlaneSEID:    fmt.Sprintf("%#x", s.LocalID),
+			logger_util.FieldControlPlaneSEID: fmt.Sprintf("%#x", s.RemoteID),
+		})
+	s.log.Infoln("Session moved")
+}
+
 func (n *RemoteNode) DeleteSess(lSeid uint64) []report.USAReport {
 	_, ok := n.sess[lSeid]
 	if !ok {
